@@ -528,6 +528,14 @@ inline bool linear_form(sym x, std::map<std::string,mpq_class> &coef, mpq_class 
     for (auto &t : c.polys[v.n]) { const MonoV &m=c.monos[t.first]; if (m.empty()) { c0=t.second; continue; } if (m.size()!=1 || m[0].second!=1 || c.atoms[m[0].first].k!=Atom::VAR) return false; coef[c.vars[c.atoms[m[0].first].arg]]=t.second; } return true; }
 // replace a cut (havoc) variable by its definition a/b (one level); other values are returned unchanged
 inline sym unfold(sym s) { Ctx &c=ctx(); for (auto &h : c.havocs) if (h.var_val==s.nf) { bool hv=c.havoc_div; c.havoc_div=false; id_t nf=c.vdiv(h.a,h.b); c.havoc_div=hv; return sym::mk(s.raw,nf); } return s; }
+// no division on this path may have a zero divisor when the stated precondition holds:  PC /\ pre /\ divisor = 0  must be unsat
+// (the non-zero-divisor side conditions are NOT assumed in these queries)
+inline void s_no_breakdown(const std::string &name, const F &pre) { Ctx &c=ctx(); Report &r=report(); std::vector<id_t> divs=c.nz;
+    for (id_t v : divs) { r.obligations++; Emit e; std::vector<std::string> as; std::set<id_t> vs; f_dens(pre,vs); for (id_t d : vs) as.push_back(smt_den_nz(d,e)); as.push_back(smt_f(pre,e)); as.push_back("(not "+smt_nonzero(v,e)+")");
+        QueryResult q=run_query(as,e,true,{},false);
+        if (q.verdict=="unsat") { r.discharged++; continue; }
+        if (q.verdict=="unknown") { r.inconclusive.push_back(name+" (solver: unknown/timeout)"); continue; }
+        Violation vi; vi.obligation=name; vi.detail="a divisor of the computation is zero although the precondition holds"; vi.prefix=std::vector<bool>(c.prefix.begin(), c.prefix.begin()+std::min(c.pos,c.prefix.size())); vi.have_model=true; for (auto &kv : q.model) { vi.model[kv.first]=kv.second.exact; if (!kv.second.rational) vi.have_model=false; } r.violations.push_back(vi); return; } }
 // structural (non-solver) check that must hold on every explored path
 inline void s_require(const std::string &name, bool ok, const std::string &detail="") { Report &r=report(); r.obligations++; if (ok) { r.discharged++; return; }
     Ctx &c=ctx(); Violation v; v.obligation=name; v.detail=detail; v.prefix=std::vector<bool>(c.prefix.begin(), c.prefix.begin()+std::min(c.pos,c.prefix.size())); v.have_model=false;
